@@ -128,7 +128,7 @@ PROP_WEIGHTS = {
     "C01": {"put_revert": 3},
     "C02": {"partial": 3, "get": 3, "propfind": 3, "multiget": 3, "query": 2, "sync": 2, "proppatch": 4, "put_over": 12},
     "C03": {"put_cond": 14, "delete_cond": 8, "get_cond": 6, "put_over": 10, "post": 1, "mkcol": 1, "mkcalendar": 1, "delete_coll": 2, "sync": 1.5},
-    "C06": {"put_recreate": 6, "put_uidclash": 10, "put_over": 10, "put_new": 10, "delete": 7, "restart": 2, "evict": 3, "mkcol": 0.3, "proppatch": 0.5},
+    "C06": {"put_recreate": 6, "put_uidclash": 10, "put_over": 10, "put_new": 10, "post": 7, "delete": 7, "restart": 2, "evict": 3, "mkcol": 0.3, "proppatch": 0.5},
     "C07": {"sync": 16, "put_copy": 4, "put_same": 3, "put_revert": 4, "delete": 12, "put_new": 10, "put_over": 10, "mkcol": 0.3, "put_invalid": 0.5,
             "propfind": 0.3, "get": 0.3, "multiget": 0.3, "query": 0.3, "proppatch": 1, "post": 2},
     "C08": {"put_same": 3, "put_revert": 5, "delete": 8, "put_invalid": 3, "put_cond": 4, "get": 2, "propfind": 2},
@@ -575,6 +575,15 @@ class HistRun:
                           {"op": "put", "coll": c.path, "name": n2, "body": b2s(body), "ctype": ct},
                           {"op": "report", "report": "sync", "coll": c.path, "token": {"issued": 10 ** 6}}]
             return {"op": "put", "coll": c.path, "name": n1, "body": b2s(body), "ctype": ct, "salt": r.getrandbits(32)}
+        if self.prop == "C06" and r.random() < 0.08:
+            # an object created by POST (as clients send it: media type with parameters) holds its
+            # UID like any other; a PUT of that UID under a new name must be refused
+            c = self.pick_coll(("calendar",))
+            if c.kind == "calendar":
+                self.fresh += 1
+                uid = "posted-%d" % self.fresh
+                self.queue = [{"op": "put", "coll": c.path, "name": "pc%d.ics" % self.fresh, "body": b2s(gen.ics(r, uid, rich=0)), "ctype": "text/calendar"}]
+                return {"op": "post", "coll": c.path, "body": b2s(gen.ics(r, uid, rich=0)), "ctype": "text/calendar" + r.choice(["; charset=utf-8", ";charset=UTF-8", "; component=VEVENT", ""]), "salt": r.getrandbits(32)}
         if self.prop == "C06" and r.random() < 0.08:
             # a member is deleted and comes back byte-identical; its UID must be taken again
             cands = [(c, n) for c in self.store_colls(("calendar",)) for n, mm in sorted(c.members.items()) if mm.uid and mm.served and n.endswith(".ics")]
